@@ -69,7 +69,7 @@ func s2Case(resume bool, nClients, bound, maxExecs int, perCmd bool) *vlib.Resul
 		label += "/shared-per-command-policy"
 	}
 	_ = security.GetSessionCache() // run the sync.Once outside the scheduler
-	var results []string
+	var results, sids []string
 	var ends []*sEnd
 	mk := func() []func() {
 		security.ClearSessionCache()
@@ -90,6 +90,7 @@ func s2Case(resume bool, nClients, bound, maxExecs int, perCmd bool) *vlib.Resul
 			<-done
 		}
 		results = make([]string, nClients)
+		sids = make([]string, nClients)
 		ends = nil
 		var cEnds []*sEnd
 		for i := 0; i < nClients; i++ {
@@ -118,6 +119,9 @@ func s2Case(resume bool, nClients, bound, maxExecs int, perCmd bool) *vlib.Resul
 					results[i] = "ok"
 					if n := c.GetSecurityNegotiation(); n != nil && resume && !n.SessionResumed {
 						results[i] = "ok-but-not-resumed"
+					}
+					if n := c.GetSecurityNegotiation(); n != nil {
+						sids[i] = n.SessionId
 					}
 				}
 				_ = c.Close()
@@ -161,6 +165,16 @@ func s2Case(resume bool, nClients, bound, maxExecs int, perCmd bool) *vlib.Resul
 				if !seen["fail/"+k] {
 					seen["fail/"+k] = true
 					res.Violate("C17/S2/"+label+"/handshakes-disturb-each-other/"+k, "client %d of %d concurrent connections sharing one configuration failed although each succeeds alone: %s (schedule %v)", i, nClients, r, choices(x))
+				}
+			}
+		}
+		if !resume {
+			for i := range sids {
+				for j := i + 1; j < len(sids); j++ {
+					if sids[i] != "" && sids[i] == sids[j] && !seen["samesid"] {
+						seen["samesid"] = true
+						res.Violate("C17/S2/"+label+"/two-sessions-one-id", "two concurrent fresh handshakes were given the same session id %s (schedule %v)", short(sids[i]), choices(x))
+					}
 				}
 			}
 		}
